@@ -153,17 +153,17 @@ def addEventTransition (m : ModelDef) (t : Transn) : Except Err ModelDef := do
   let ev ← mkEvent [{ t with equation := none }] t.equation
   pure (addEvent m ev)
 
-/-- legacy `add_transition` (rebuilds the transition: magnitude is not carried over) -/
-def addTransition (m : ModelDef) (t : Transn) (carryMagnitude : Bool := false) : Except Err ModelDef :=
+/-- legacy `add_transition` (rebuilds the transition inside a new Event, keeping its magnitude) -/
+def addTransition (m : ModelDef) (t : Transn) : Except Err ModelDef :=
   if t.ttype != .T then .error .input
   else do
-    let tr ← mkTransition t.origin none .T t.dest (if carryMagnitude then t.magnitude else one)
+    let tr ← mkTransition t.origin none .T t.dest t.magnitude
     let ev ← mkEvent [tr] t.equation
     pure (addEvent m ev)
 
 /-- legacy `add_birth_death` -/
-def addBirthDeath (m : ModelDef) (t : Transn) (carryMagnitude : Bool := false) : Except Err ModelDef :=
-  let mag := if carryMagnitude then t.magnitude else one
+def addBirthDeath (m : ModelDef) (t : Transn) : Except Err ModelDef :=
+  let mag := t.magnitude
   match t.ttype with
   | .B => do
     let tr ← mkTransition none none .B t.dest mag
